@@ -5,6 +5,8 @@ from __future__ import annotations
 from dataclasses import dataclass, field
 from typing import Any, List, Optional, Type, Union
 
+from cbor2 import CBORTag
+
 from pycardano.key import ExtendedVerificationKey, VerificationKey
 from pycardano.nativescript import NativeScript
 from pycardano.plutus import (
@@ -47,6 +49,13 @@ class VerificationKeyWitness(ArrayCBORSerializable):
         )
 
 
+def _plutus_data_hook(vals: Any) -> Union[List[Any], NonEmptyOrderedSet[Any]]:
+    """Restore witness datums from either wire form: a plain array or a set tagged with 258."""
+    if isinstance(vals, CBORTag) and vals.tag == 258:
+        return NonEmptyOrderedSet(list_hook(RawPlutusData)(vals.value), use_tag=True)
+    return list_hook(RawPlutusData)(vals)
+
+
 @dataclass(repr=False)
 class TransactionWitnessSet(MapCBORSerializable):
     vkey_witnesses: Optional[
@@ -70,7 +79,7 @@ class TransactionWitnessSet(MapCBORSerializable):
     )
 
     # TODO: Add bootstrap witness (byron) support
-    bootstrap_witness: Optional[List[Any]] = field(
+    bootstrap_witness: Optional[Union[List[Any], NonEmptyOrderedSet[Any]]] = field(
         default=None, metadata={"optional": True, "key": 2}
     )
 
@@ -84,9 +93,9 @@ class TransactionWitnessSet(MapCBORSerializable):
         },
     )
 
-    plutus_data: Optional[List[Any]] = field(
+    plutus_data: Optional[Union[List[Any], NonEmptyOrderedSet[Any]]] = field(
         default=None,
-        metadata={"optional": True, "key": 4, "object_hook": list_hook(RawPlutusData)},
+        metadata={"optional": True, "key": 4, "object_hook": _plutus_data_hook},
     )
 
     redeemer: Optional[Redeemers] = field(
